@@ -57,6 +57,10 @@ CHECKS = {
   "Storage corruption between a valid write and a read: structure-aware mutation of footer fields through the peer's Thrift value tree (boundary values, list surgery, retyped/dropped fields, nesting bombs), inconsistencies planted by the peer writer with coherent offsets (page type/sizes/crc/num_values/encodings/dictionary size/index bit width/level-block lengths), payload damage with verification off, lost/duplicated/misdirected blocks, truncation, garbage, plus input-stream faults; each image is opened through three transports and driven by a seeded history of every public reader call with exact-size caller buffers. Oracle: ASan + UBSan subset + guard-paged mapping, per-call tick budget, error contract, allocation ledger and stream/mapping registry empty after close.",
   "Trusted: ASan/UBSan, the tick clock (basic blocks of instrumented carquet code; zlib/zstd/libc time only under the 90 s wall-clock backstop), the allocator cap (64 MiB per request, 256 MiB live) that turns huge counts into handled-or-not outcomes. Sampling of an infinite input space.",
   "deterministic simulation: storage-fault injection on valid images + seeded API histories under sanitizers and a logical-time budget", "7 C04"),
+ "C07": ("exploration",
+  "The OpenMP runtime is the simulator's own (GOMP ABI): worker threads are real pthreads from a persistent pool but only one task is runnable at a time and a seeded scheduler decides every context switch (at wrapped libc calls, loop chunk hand-out and pre-drawn basic-block ticks from the trace-pc callback). Clause 1: batch sequences, values, bitmaps and statuses for num_threads in {2,3,4,8,16,auto} under five scheduling policies must equal the num_threads=1 run, in all three transports. Clause 2: 2-4 caller tasks with independent readers on one image, started on a cold library so that lazy initialisation is interleaved, must each equal their solo run. One seed = one exactly repeatable schedule; violations are shrunk over the schedule choices too.",
+  "Trusted: sequentially consistent interleavings at basic-block granularity (no word tearing / reordering / weak memory); own GOMP runtime covers the entry points gcc 12 emits for the tree and common neighbours; guarded hooks make the library cold per run (detect, dispatch, CRC tables, per-thread ZSTD context).",
+  "deterministic simulation: own OpenMP runtime, serialising seeded scheduler with basic-block preemption, caller tasks on a cold library", "7 C07"),
 }
 def chk(pid):
     cat,text,note,tech,ref = CHECKS[pid]
@@ -71,7 +75,7 @@ m = {
  "hooks":{"guard":"CARQUET_VERIF",
   "enable":"sim/build.sh compiles every src/**/*.c of /repo's working tree with gcc -DCARQUET_VERIF (plus ASan, UBSan subset, -fsanitize-coverage=trace-pc, -fopenmp lowered to the simulator's own GOMP runtime); all other seams are link-time --wrap",
   "baseline_off_cmd":"cd /repo && cmake -G Ninja -B _build >/dev/null && cmake --build _build >/dev/null && ctest --test-dir _build -j8 --timeout 900",
-  "source_commits":["01aab17","2701701","607e5b6"],"add_only":True},
+  "source_commits":["01aab17","2701701","607e5b6","383b73b"],"add_only":True},
  "engines":[{"name":"simrun","path":"/verif/sim","serves_properties":claimed,"kind_free_text":"deterministic simulator: seeded choice tape, simulated disk/stdio/mmap/allocator/OpenMP runtime/CPU, independent Parquet peer, reference models, gate+shrink+replay"}],
  "checks":[chk(p) for p in claimed],
  "not_applicable":[{"property_id":a,"reason":b} for a,b in NA],
